@@ -13,8 +13,25 @@ import os
 import sys
 
 
+def reader_main():
+    """`python -m verifpy.stdio_worker reader < pickle([harness cases]) > pickle([observations])`: the stdio READER cases in a
+    process of their own - whatever the library keeps process-wide starts from nothing"""
+    import pickle
+
+    logging.disable(logging.CRITICAL)
+    from . import core
+
+    core.use_repo_source()
+    from . import stdio_h
+
+    cases = pickle.loads(sys.stdin.buffer.read())
+    sys.stdout.buffer.write(pickle.dumps(stdio_h.run_reader_cases(cases)))
+
+
 def main():
     mode = sys.argv[1]
+    if mode == "reader":
+        return reader_main()
     if mode == "no-orjson":
         sys.modules["orjson"] = None  # type: ignore[assignment]
     elif mode == "fallback":
